@@ -18,7 +18,7 @@ JSX = "htmltools._jsx"
 ENTRIES = ["JSXTag.tagify", "JSXTag.__str__", "JSXTag.__repr__", "JSXTag._repr_html_"]
 
 
-def purity(ctx: Ctx) -> None:
+def purity(ctx: Ctx, rule: str = "C20.pure") -> None:
     O = Ownership(ctx.prog)
     O.inline = {"_walk_attrs_and_children"}     # the walker is analysed with the actual visitor closure bound
     O.solve(list(ENTRIES))
@@ -32,11 +32,11 @@ def purity(ctx: Ctx) -> None:
         sm = O.sums[q]
         bad = [(p, st) for p, sites in sm.mutates.items() for st in sites]
         if not bad:
-            ctx.ok("C20.pure", f"{q} mutates nothing reachable from the component", paths=sm.paths)
+            ctx.ok(rule, f"{q} mutates nothing reachable from the component", paths=sm.paths)
         for p, st in bad:
             chain = " -> ".join((q,) + st.chain)
             mod = JSX if st.fn in ("_walk_attrs_and_children",) or st.fn.startswith(("JSX", "_render", "_serialize", "_lib")) else "htmltools._core"
-            ctx.fail("C20.pure", f"{mod}:{st.fn if st.fn != q else q}", st.text(),
+            ctx.fail(rule, f"{mod}:{st.fn if st.fn != q else q}", st.text(),
                      f"`{st.text()}` modifies {st.target}, which is reachable from the component being converted (`{p}` of {q}; call path {chain}): "
                      f"after tagify()/str() the component's own props/children are replaced by their expansions/copies",
                      witness="x = Foo(T()); x.tagify(); x.children[0]  # T tagifiable", line=getattr(st.node, "lineno", None))
@@ -621,6 +621,92 @@ def init_allowlist(ctx: Ctx, I: Interp) -> None:
               witness="jsx_tag_create('Foo', allowedProps=['a'])(b=1)")
 
 
+def prop_names(ctx: Ctx, I: Interp) -> None:
+    """Every prop is stored once under its normalised name: the name rule itself, item assignment, and the update path."""
+    from .c15 import name_pipeline, setitem_key
+    prog = ctx.prog
+    name_pipeline(ctx, rule="C20.name", mod=JSX, qual="JSXTagAttrDict._normalize_attr_name")
+    setitem_key(ctx, "C20.name", mod=JSX, cls="JSXTagAttrDict", value_as_given=True)
+    # _update(mapping): each item goes, value unchanged, under its normalised name into the dict that is merged in
+    q = "JSXTagAttrDict._update"
+    if not prog.has_function(JSX, q):
+        return          # no separate helper: update() is covered through the constructor tables
+    fn = prog.function(JSX, q)
+    where = f"{JSX}:{q}"
+    ps = [a.arg for a in fn.args.posonlyargs + fn.args.args]
+    ctx.require(len(ps) == 2, f"{q} signature changed")
+    from ..loopbuilt import iter_base
+    n = 0
+    for idx in range(3):
+        cfg = Config()
+        cfg.opaque_all = True
+        cfg.stop_at_loop = (q, idx)
+        any_rec = False
+
+        def mk(run: Any):
+            s_ = SObj("self", {"JSXATTRDICT"})
+            m_ = SObj("m", {"DICT"})
+            run.__dict__["o"] = (s_, m_)
+            return ({ps[0]: s_, ps[1]: m_}, s_)
+
+        for l in I.run_function(JSX, q, mk, cfg):
+            rec = getattr(l.run, "stop_loop_record", None)
+            if rec is None:
+                continue
+            any_rec = True
+            s_, m_ = l.run.__dict__["o"]
+            if iter_base(rec.iter_value) is not m_:
+                continue
+            el = rec.__dict__.get("element")
+            if not (isinstance(el, SList) and len(el.items) == 2):
+                continue
+            k_, v_ = el.items
+            start = rec.__dict__.get("body_effect_start", 0)
+            for e in l.effects[start:]:
+                if e.kind == "store_item" or (e.kind == "basecall" and str(e.key).endswith("__setitem__")) \
+                        or (e.kind == "call" and getattr(e.target, "qual", "").endswith("__setitem__")):
+                    key, val = (e.key, e.value) if e.kind == "store_item" else (e.value[0], e.value[1]) if e.value and len(e.value) == 2 else (None, None)
+                    n += 1
+                    ctx.check(key is not k_, "C20.name", "update() stores each prop under its normalised name", where, f"stores under {short(key)}",
+                              f"update()/the constructor store a prop under the name as given ({short(key)}), not under its normalised form",
+                              witness="Foo(class_='a')")
+                    ctx.check(val is v_, "C20.name", "update() stores each prop value as given", where, f"stores {short(val)}",
+                              f"update()/the constructor store {short(val)} instead of the prop value")
+        if not any_rec:
+            break
+    if n == 0:
+        # the same written as a comprehension: {normalise(k): v for k, v in m.items()}
+        cfg = Config()
+        cfg.opaque_all = True
+
+        def mk2(run: Any):
+            s_ = SObj("self", {"JSXATTRDICT"})
+            m_ = SObj("m", {"DICT"})
+            run.__dict__["o"] = (s_, m_)
+            return ({ps[0]: s_, ps[1]: m_}, s_)
+
+        for l in I.run_function(JSX, q, mk2, cfg):
+            s_, m_ = l.run.__dict__["o"]
+            pool = list((getattr(l, "env", None) or {}).values())
+            for e in l.effects:
+                pool += list(e.value) if isinstance(e.value, list) else [e.value]
+                pool += list(((e.extra or {}).get("dstar") or [])) if isinstance(e.extra, dict) else []
+            for d_ in pool:
+                c_ = d_.__dict__.get("comp") if isinstance(d_, SDict) else None
+                if c_ is None or iter_base(c_["iter"]) is not m_ or not (isinstance(c_["var"], SList) and len(c_["var"].items) == 2):
+                    continue
+                k_, v_ = c_["var"].items
+                n += 1
+                ctx.check(c_["key"] is not k_ and not c_["ifs"], "C20.name", "update() stores each prop under its normalised name", where,
+                          f"comprehension key {short(c_['key'])} if {c_['ifs']}",
+                          f"update()/the constructor store a prop under the name as given ({short(c_['key'])}), or drop some props",
+                          witness="Foo(class_='a')")
+                ctx.check(c_["value"] is v_, "C20.name", "update() stores each prop value as given", where, f"stores {short(c_['value'])}",
+                          f"update()/the constructor store {short(c_['value'])} instead of the prop value")
+                break
+    ctx.min_count(f"{q} item stores", n, 1)
+
+
 def _iter_base(it: Any) -> Any:
     d = getattr(it, "iter_descr", None)
     if d is not None and d[0] in ("keys", "items", "values"):
@@ -652,6 +738,7 @@ def check(ctx: Ctx) -> None:
     serialize_table(ctx, I)
     render_table(ctx, I)
     init_allowlist(ctx, I)
+    prop_names(ctx, I)
     # children however they were added: append / extend forward to the child list
     from .c14 import _delegates
     for meth in ("append", "extend"):
